@@ -85,6 +85,7 @@ type storageAnalysis struct {
 	info   *types.Info
 	recv   types.Object
 	fails  []string
+	viol   []string // definite disagreements found while extracting (e.g. a cached size that a construction site does not set)
 	method *ast.FuncDecl
 }
 
@@ -473,6 +474,102 @@ func (s *storageAnalysis) sizeTerms(fd *ast.FuncDecl) (terms []string, own int) 
 					return
 				}
 			}
+		case *ast.SelectorExpr:
+			// a cached size: an int field of the receiver. Its value is what the construction sites store: every
+			// composite literal of the storage type has to set it, to a sum of constants and Size() of the values it
+			// stores in other fields.
+			if id, ok := ast.Unparen(t.X).(*ast.Ident); ok && s.info.ObjectOf(id) == s.recv {
+				if fs, ok := s.info.Selections[t]; ok && fs.Kind() == types.FieldVal {
+					if bt, ok := fs.Obj().Type().Underlying().(*types.Basic); ok && bt.Info()&types.IsInteger != 0 {
+						recvNamed := namedOf(s.recv.Type())
+						if recvNamed == nil {
+							break
+						}
+						fname := fs.Obj().Name()
+						var siteTerms [][]string
+						var siteOwn []int
+						nSites := 0
+						for _, pkg := range s.c.RepoPkgs {
+							pinfo := pkg.TypesInfo
+							for _, f := range pkg.Syntax {
+								ast.Inspect(f, func(x ast.Node) bool {
+									cl, ok := x.(*ast.CompositeLit)
+									if !ok {
+										return true
+									}
+									if nm := namedOf(pinfo.TypeOf(cl)); nm == nil || nm.Obj() != recvNamed.Obj() {
+										return true
+									}
+									nSites++
+									fields := map[string]ast.Expr{}
+									for _, el := range cl.Elts {
+										if kv, ok := el.(*ast.KeyValueExpr); ok {
+											if k, ok := kv.Key.(*ast.Ident); ok {
+												fields[k.Name] = kv.Value
+											}
+										}
+									}
+									init, ok := fields[fname]
+									if !ok {
+										s.viol = append(s.viol, fmt.Sprintf("Size() returns the cached field %s, but the construction site %s (%s) does not set it: maps built there report the size 0 while Iter and Get deliver their entries", fname, nodeStr(s.c.Fset, cl.Type), s.c.posStr(cl.Pos())))
+										return true
+									}
+									var tms []string
+									o := 0
+									var sum func(e ast.Expr) bool
+									sum = func(e ast.Expr) bool {
+										e = ast.Unparen(e)
+										if v, ok := constInt(pinfo.Types[e]); ok {
+											o += v
+											return true
+										}
+										switch u := e.(type) {
+										case *ast.BinaryExpr:
+											if u.Op == token.ADD {
+												return sum(u.X) && sum(u.Y)
+											}
+										case *ast.CallExpr:
+											if sel, ok := ast.Unparen(u.Fun).(*ast.SelectorExpr); ok && sel.Sel.Name == "Size" && len(u.Args) == 0 {
+												for g, ge := range fields {
+													if nodeStr(s.c.Fset, ge) == nodeStr(s.c.Fset, sel.X) {
+														tms = append(tms, "F:"+g)
+														return true
+													}
+												}
+											}
+										}
+										return false
+									}
+									if !sum(init) {
+										s.fail("Size: cached field %s is initialised with %s at %s, which is not understood", fname, nodeStr(s.c.Fset, init), s.c.posStr(cl.Pos()))
+										return true
+									}
+									sort.Strings(tms)
+									siteTerms = append(siteTerms, tms)
+									siteOwn = append(siteOwn, o)
+									return true
+								})
+							}
+						}
+						if nSites == 0 {
+							s.fail("Size: no construction site of the storage found for the cached field %s", fname)
+							return
+						}
+						if len(s.viol) > 0 || len(siteTerms) == 0 {
+							return
+						}
+						for i := 1; i < len(siteTerms); i++ {
+							if strings.Join(siteTerms[i], ",") != strings.Join(siteTerms[0], ",") || siteOwn[i] != siteOwn[0] {
+								s.viol = append(s.viol, fmt.Sprintf("the construction sites of the storage initialise the cached size %s differently", fname))
+								return
+							}
+						}
+						terms = append(terms, siteTerms[0]...)
+						own += siteOwn[0]
+						return
+					}
+				}
+			}
 		case *ast.Ident:
 			// a counter: initial value plus conditional increments
 			obj := s.info.ObjectOf(t)
@@ -577,6 +674,10 @@ func ruleR131(c *Ctx) {
 			id := minimalDNF(sa.iterDomain(iter))
 			sa.recv = recvOf(size)
 			terms, own := sa.sizeTerms(size)
+			if len(sa.viol) > 0 {
+				c.Violation(key, size.Pos(), "%s", strings.Join(sa.viol, "; "))
+				continue
+			}
 			if len(sa.fails) > 0 {
 				c.Undecided(key, get.Pos(), "shape of the storage not extracted: %s", strings.Join(sa.fails, "; "))
 				continue
